@@ -39,7 +39,8 @@ SET1 = [[(-10, 50), (60, 55), (130, 40)], [(30, -20), (35, 130)], [(0, 100), (50
 SET2 = [[(0, 0), (30, 0), (60, 0), (60, 60), (0, 60), (0, 0)], [(60, 0), (120, 0), (120, 60), (60, 60)],
         [(30, 60), (90, 60), (90, 100), (30, 100)], [(10, 10), (50, 10)], [(5, 5)]]
 SETS = [SET0, SET1, SET2]
-CONTS = [[(0, 0, 0), (1, 0, 1)], [(2, 1, 0)]]          # (set, polytype 0=Subject 1=Clip, open)
+CONTS = [[(0, 0, 0), (1, 0, 1)], [(2, 1, 0)], [(1, 0, 1), (0, 1, 0)]]          # (set, polytype 0=Subject 1=Clip, open); the third
+                                                                              # holds open paths BEFORE closed ones
 
 
 def defs_line(sets=SETS, conts=CONTS):
@@ -50,7 +51,7 @@ def defs_line(sets=SETS, conts=CONTS):
     return ' '.join(out)
 
 
-ADDS = ['S0', 'C2', 'O1', 'C0', 'S2', 'R0', 'R1']
+ADDS = ['S0', 'C2', 'O1', 'C0', 'S2', 'R0', 'R1', 'R2']
 OPTS = ['P0', 'V1']
 EXECS = ['X10', 'X21', 'T21', 'T30']
 ALPHABET = ADDS + OPTS + EXECS + ['L']
@@ -93,7 +94,7 @@ def random_history(rng, maxlen=30, multi=False):
         r = rng.below(100)
         if r < 38:
             k = rng.below(5)
-            ops.append(['S', 'C', 'O'][rng.below(3)] + str(rng.below(3)) if k < 3 else 'R%d' % rng.below(2))
+            ops.append(['S', 'C', 'O'][rng.below(3)] + str(rng.below(3)) if k < 3 else 'R%d' % rng.below(3))
         elif r < 70:
             ops.append(('X' if rng.below(2) else 'T') + str(rng.below(5)) + str(rng.below(4)))
         elif r < 80:
@@ -122,51 +123,27 @@ def random_history(rng, maxlen=30, multi=False):
 # ------------------------------------------------------------------------------------------------ runners
 MEM_KB = 6000000        # a runaway library call must not take the machine down (seen: 55 GB)
 
-def run_sharded(exe, lines, prefix=None, jobs=None, timeout=900, env=None):
-    """like vf.par_lines, but every shard starts with `prefix` (the DEFS line) and a crash is attributed to the line
-    being processed (the harness flushes after every line).  Returns (outs, crashes[(line, rc, stderr)])."""
-    jobs = jobs or vf.NPROC
-    n = len(lines)
-    if n == 0:
-        return [], []
-    chunk = max(1, (n + jobs - 1) // jobs)
-    shards = [lines[i:i + chunk] for i in range(0, n, chunk)]
-    outs, crashes = [None] * len(shards), []
+SHARD_TIMEOUT = 30      # seconds per harness process in the quick tier (a whole phase normally takes 1-3 s)
+ISO_TIMEOUT = 8         # one line alone
+DEADLINE = None         # wall-clock bound for everything that executes the library (set by run): on a tree whose
+                        # library hangs the quick tier ends within about five minutes, what is left is counted as not run
+NOTRUN = oc.NOTRUN
 
-    def run_one(inp):
+
+def run_sharded(exe, lines, prefix=None, jobs=None, timeout=None, env=None, budget=None):
+    """like vf.par_lines, but every shard starts with `prefix` (the DEFS line); a crash or a hang is attributed to the line
+    being processed (the harness flushes after every line) by running that line alone (oc.run_robust): it answers CRASH or
+    HANG, after a hang the rest of the shard answers NOTRUN.  Returns (outs, failures[(line, rc, stderr, kind)])."""
+    timeout = timeout or SHARD_TIMEOUT
+    if DEADLINE is not None:
+        left = max(3.0, DEADLINE - time.time())
+        budget = min(budget, left) if budget else left
+
+    def runner(inp, t):
         if env and 'ASAN_OPTIONS' in env:          # sanitizer builds reserve huge virtual ranges: limit RSS instead
-            return vf.run_lines(exe, inp, timeout=timeout, env=env)
-        return vf.run_lines('/bin/bash', inp, args=['-c', 'ulimit -v %d; exec "$0"' % MEM_KB, exe], timeout=timeout, env=env)
-
-    def work(i):
-        """run a shard; when the process dies the line it was working on answers CRASH and the rest of the shard is
-        run again in a new process (a crash must not be attributed to the lines behind it)"""
-        todo, res, cr = shards[i], [], []
-        while todo:
-            p = run_one(([prefix] if prefix else []) + todo)
-            o = p.stdout.split('\n')
-            if o and o[-1] == '':
-                o.pop()
-            if prefix:
-                o = o[1:]
-            o = o[:len(todo)]
-            res += o
-            if len(o) == len(todo):
-                if p.returncode != 0:        # died after the last answer (e.g. leak report at exit)
-                    cr.append(('<after last line>', p.returncode, (p.stderr or '')[-3000:]))
-                break
-            cr.append((todo[len(o)], p.returncode, (p.stderr or '')[-3000:]))
-            res.append('CRASH')
-            todo = todo[len(o) + 1:]
-            if len(cr) > 20:                 # something is thoroughly wrong: do not loop for ever
-                res += ['CRASH'] * len(todo)
-                break
-        return i, res, cr
-    with cf.ThreadPoolExecutor(max_workers=jobs) as ex:
-        for i, o, cr in ex.map(work, range(len(shards))):
-            outs[i] = o
-            crashes += cr
-    return [l for o in outs for l in o], crashes
+            return vf.run_lines(exe, inp, timeout=t, env=env)
+        return vf.run_lines('/bin/bash', inp, args=['-c', 'ulimit -v %d; exec "$0"' % MEM_KB, exe], timeout=t, env=env)
+    return oc.run_robust(runner, lines, prefix=prefix, jobs=jobs, timeout=timeout, iso_timeout=ISO_TIMEOUT, budget=budget)
 
 
 # ------------------------------------------------------------------------------------------------ offset cases
@@ -584,29 +561,32 @@ def history_violation(ctx, kind, line, out, defs, extra=''):
         key = 'history.%s-differs-from-fresh' % ('tree' if tok[0] == 'T' else 'paths')
     else:
         what = 'history %s: harness answered %s %s' % (' '.join(ops), out[:200], extra)
-        key = 'history.crash' if out == 'CRASH' else 'history.exception'
+        key = 'history.crash' if out == 'CRASH' else ('history.hang' if out == 'HANG' else 'history.exception')
     return ctx.violation(key, what, replay=dict(kind=kind, defs=defs, line=line, out=out[:2000], sets=SETS, containers=CONTS))
 
 
-def minimise_history(exe, defs, line):
-    """greedy one-op removal while the history still fails"""
+def minimise_history(exe, defs, line, budget=25):
+    """greedy one-op removal while the history still fails (bounded: a hanging history costs ISO_TIMEOUT per trial)"""
     head, ops = line.split()[:2], line.split()[2:]
+    t_end = time.time() + budget
 
     def fails(o):
-        p = vf.run_lines('/bin/bash', [defs, ' '.join(head + o)], args=['-c', 'ulimit -v %d; exec "$0"' % MEM_KB, exe], timeout=60)
+        p = vf.run_lines('/bin/bash', [defs, ' '.join(head + o)], args=['-c', 'ulimit -v %d; exec "$0"' % MEM_KB, exe], timeout=ISO_TIMEOUT)
         outs = p.stdout.split('\n')
         return p.returncode != 0 or len(outs) < 2 or not outs[1].startswith('OK')
     changed = True
-    while changed and len(ops) > 1:
+    while changed and len(ops) > 1 and time.time() < t_end:
         changed = False
         for i in range(len(ops)):
+            if time.time() > t_end:
+                break
             o = ops[:i] + ops[i + 1:]
             if o and admissible(o) and fails(o):
                 ops, changed = o, True
                 break
-    p = vf.run_lines(exe, [defs, ' '.join(head + ops)], timeout=60)
+    p = vf.run_lines(exe, [defs, ' '.join(head + ops)], timeout=ISO_TIMEOUT)
     outs = p.stdout.split('\n')
-    return ' '.join(head + ops), (outs[1] if len(outs) > 1 and outs[1] else 'CRASH')
+    return ' '.join(head + ops), (outs[1] if len(outs) > 1 and outs[1] else ('HANG' if getattr(p, 'timed_out', False) else 'CRASH'))
 
 
 def fresh_equivalents(line):
@@ -632,14 +612,14 @@ def fresh_equivalents(line):
 
 
 def crash_on_fresh_object(exe, defs, line, env=None):
-    """a crashed history: does one of its Executes crash on a fresh object given the same paths and options as well?
-    Then used and fresh object behave alike -- a robustness defect (C10), not a history dependence.  Returns the
-    fresh-equivalent history that crashes, or None."""
+    """a crashed / hanging history: does one of its Executes crash or hang on a fresh object given the same paths and options
+    as well?  Then used and fresh object behave alike -- the failure is not a matter of history.  Returns the
+    fresh-equivalent history that fails, or None."""
     for fl in fresh_equivalents(line):
         if env and 'ASAN_OPTIONS' in env:
-            p = vf.run_lines(exe, [defs, fl], timeout=120, env=env)
+            p = vf.run_lines(exe, [defs, fl], timeout=ISO_TIMEOUT, env=env)
         else:
-            p = vf.run_lines('/bin/bash', [defs, fl], args=['-c', 'ulimit -v %d; exec "$0"' % MEM_KB, exe], timeout=120)
+            p = vf.run_lines('/bin/bash', [defs, fl], args=['-c', 'ulimit -v %d; exec "$0"' % MEM_KB, exe], timeout=ISO_TIMEOUT)
         outs = p.stdout.split('\n')
         if p.returncode != 0 or len(outs) < 2 or not outs[1]:
             return fl
@@ -647,11 +627,15 @@ def crash_on_fresh_object(exe, defs, line, env=None):
 
 
 def run_histories(ctx, exe, defs, lines, label, env=None):
+    """Every Execute of every history against a fresh object.  Failures: DIFF (used != fresh), exception, CRASH, HANG.
+    A crash / hang is always reported with the history as replay: under history.crash / history.hang when the fresh
+    object given the same paths and options survives (a genuine history dependence), under
+    history.crash-on-fresh-object-too / history.hang-on-fresh-object-too when it fails alike (then the same failure needs
+    no history -- it is reported here because an Execute that does not return cannot give "the same result as a freshly
+    constructed object", and so that it is never swallowed; it is a C10 matter as well)."""
     t0 = time.time()
     outs, crashes = run_sharded(exe, lines, prefix=defs, env=env)
-    nbad = 0
-    nontriv = 0
-    nfresh = 0
+    nbad = nontriv = nfresh = nnotrun = 0
     for line, out in zip(lines, outs):
         if out.startswith('OK'):
             t = out.split()
@@ -661,41 +645,53 @@ def run_histories(ctx, exe, defs, lines, label, env=None):
             if int(t[2]) > 0 and hist_before > 0:
                 nontriv += 1
             continue
-        if out == 'CRASH' and nfresh + nbad < 40:
-            fl = crash_on_fresh_object(exe, defs, line, env)
-            if fl is not None:
-                # outside C12: the fresh object given the same paths and options crashes as well
-                nfresh += 1
-                ctx.count('crashes_also_on_fresh_object', 1)
-                c = [c for c in crashes if c[0] == line]
-                ctx.sample(dict(kind='H', line=line, fresh_equivalent=fl, rc=c[0][1] if c else None, stderr=(c[0][2][-300:] if c else '')),
-                           limit=3, key='crash_also_on_fresh_object_samples')
-                if nfresh == 1:
-                    ctx.notes.append('outside C12 (robustness, C10): `%s` crashes on a fresh object as well (history %s)' % (fl, line))
-                continue
+        if out == NOTRUN:
+            nnotrun += 1
+            continue
         nbad += 1
-        if nbad <= 3:
-            extra = ''
-            if out == 'CRASH':
-                c = [c for c in crashes if c[0] == line]
-                extra = ('rc=%s %s' % (c[0][1], c[0][2][-600:])) if c else ''
-            try:
-                mline, mout = minimise_history(exe, defs, line) if env is None else (line, out)
-            except Exception:
-                mline, mout = line, out
-            if mout.startswith('OK'):          # not reproducible when run alone: report the original line
-                mline, mout = line, out
-            history_violation(ctx, 'H', mline, mout, defs, extra)
-    ctx.count('evaluations', len(lines))
-    ctx.count('histories', len(lines))
+        if nbad > 3:
+            continue
+        extra = ''
+        c = [c for c in crashes if c[0] == line]
+        late = DEADLINE is not None and time.time() > DEADLINE
+        if out in ('CRASH', 'HANG'):
+            extra = ('rc=%s %s' % (c[0][1], c[0][2][-600:])) if c else ''
+            fl = None if late else crash_on_fresh_object(exe, defs, line, env)
+            if fl is not None:
+                nfresh += 1
+                ctx.count('failures_also_on_fresh_object', 1)
+                kind = 'crash' if out == 'CRASH' else 'hang'
+                ctx.violation('history.%s-on-fresh-object-too' % kind,
+                              '%s history %s: Execute %s (%s); a fresh object given the same paths and options does the same: `%s` -- no history '
+                              'dependence, the call itself fails %s'
+                              % ('ClipperD' if line.split()[1] == 'D' else 'Clipper64', ' '.join(line.split()[2:]),
+                                 'crashes' if kind == 'crash' else 'does not return within %d s' % ISO_TIMEOUT, extra[:200],
+                                 ' '.join(fl.split()[2:]), '(robustness, C10)'),
+                              replay=dict(kind='H', defs=defs, line=fl, out=out, original_history=line, sets=SETS, containers=CONTS))
+                continue
+        try:
+            mline, mout = minimise_history(exe, defs, line, budget=15) if (env is None and not late) else (line, out)
+        except Exception:
+            mline, mout = line, out
+        if mout.startswith('OK'):          # not reproducible when run alone: report the original line
+            mline, mout = line, out
+        history_violation(ctx, 'H', mline, mout, defs, extra)
+    ctx.count('evaluations', len(lines) - nnotrun)
+    ctx.count('histories', len(lines) - nnotrun)
+    if nnotrun:
+        ctx.count('histories_not_run_after_a_hang_or_crash', nnotrun)
     ctx.cov['distinct_nontrivial'] = ctx.cov.get('distinct_nontrivial', 0) + nontriv
-    ctx.log('%s: %d histories, %d failing%s, %.1fs' % (label, len(lines), nbad,
-            (', %d crash on a fresh object as well (not history dependent)' % nfresh) if nfresh else '', time.time() - t0))
+    ctx.log('%s: %d histories, %d failing%s%s, %.1fs' % (label, len(lines), nbad,
+            (' (%d of the examined ones fail on a fresh object as well)' % nfresh) if nfresh else '',
+            (', %d not run after a hang/crash' % nnotrun) if nnotrun else '', time.time() - t0))
     return outs, nbad
 
 
 def run(ctx):
     thorough = not ctx.quick
+    global SHARD_TIMEOUT, DEADLINE
+    SHARD_TIMEOUT = 30 if ctx.quick else 240
+    DEADLINE = None
     # ---- 1. regenerate + prove
     tie_break = None
     try:
@@ -738,6 +734,7 @@ def run(ctx):
         ctx.violation('tie-break:cx_history-build', 'the C12 harness no longer compiles against the tree: %s' % str(e)[-800:],
                       replay=dict(kind='build', error=str(e)[-3000:]), nofail=True)
         return
+    DEADLINE = time.time() + (210 if ctx.quick else 1500)        # from here on the library is executed
     asan_env = dict(ASAN_OPTIONS='detect_leaks=1:abort_on_error=0:exitcode=99:hard_rss_limit_mb=6000', UBSAN_OPTIONS='halt_on_error=1:print_stacktrace=1')
 
     # ---- 3. corpus first
@@ -757,7 +754,22 @@ def run(ctx):
             r = ctx.rng.fork(1)
             trl += ['TR ' + ' '.join(o for o in random_history(r, 30) if o[0] != '@') for _ in range(400 if ctx.quick else 3000)]
             houts, crashes = run_sharded(exe, trl, prefix=defs)
-            oouts, ofails = vf.par_lines(orc, houts)
+            # a trace on which the library crashed / did not return (its Executes run the real sweep)
+            for l, a in zip(trl, houts):
+                if a in ('CRASH', 'HANG'):
+                    hline = 'H 64 ' + l[3:]
+                    fl = crash_on_fresh_object(exe, defs, hline)
+                    kind = 'crash' if a == 'CRASH' else 'hang'
+                    ctx.violation('history.%s%s' % (kind, '-on-fresh-object-too' if fl else ''),
+                                  'Clipper64 history %s: an Execute %s%s' % (l[3:], 'crashes' if kind == 'crash' else 'does not return within %d s' % ISO_TIMEOUT,
+                                                                           ('; a fresh object given the same paths and options does the same: `%s`' % ' '.join(fl.split()[2:])) if fl else ''),
+                                  replay=dict(kind='H', defs=defs, line=fl or hline, out=a, sets=SETS, containers=CONTS))
+                    break
+            keep = [i for i, a in enumerate(houts) if a.startswith('TR')]
+            if len(keep) < len(trl):
+                ctx.count('traces_not_run_after_a_hang_or_crash', sum(1 for a in houts if a == NOTRUN))
+            trl = [trl[i] for i in keep]; houts = [houts[i] for i in keep]
+            oouts, ofails = vf.par_lines(orc, houts) if houts else ([], [])
             nd = 0
             for l, a, b in zip(trl, houts, oouts):
                 if a != b:
@@ -772,7 +784,8 @@ def run(ctx):
             ctx.count('model_state_traces', len(trl))
             ctx.count('evaluations', len(trl))
             ctx.log('ObjectSM correspondence: %d traces, %d differ' % (len(trl), nd))
-            ctx.sample(dict(kind='TR', history=trl[777 % len(trl)][3:]))
+            if trl:
+                ctx.sample(dict(kind='TR', history=trl[777 % len(trl)][3:]))
         except vf.Infra as e:
             if not proof_broken:
                 raise
@@ -797,8 +810,8 @@ def run(ctx):
     ctx.sample(dict(kind='H', history=rl[0]))
     # two clippers alternating on one shared container, exhaustively over short interleavings
     alt = []
-    for a in itertools.product(['R0', 'R1', 'C2', 'X10', 'T21', 'L'], repeat=3):
-        for b in itertools.product(['R0', 'R1', 'S0', 'X21', 'L'], repeat=2):
+    for a in itertools.product(['R0', 'R1', 'R2', 'C2', 'X10', 'T21', 'L'], repeat=3):
+        for b in itertools.product(['R0', 'R2', 'S0', 'X21', 'L'], repeat=2):
             seq = ['@0', a[0], '@1', b[0], '@0', a[1], '@1', b[1], '@0', a[2], 'X21', '@1', 'X10', '@0', 'T30']
             if admissible(seq):
                 alt.append('H 64 ' + ' '.join(seq))
@@ -807,10 +820,11 @@ def run(ctx):
     sub = hl[::7]
     o1, _ = run_sharded(exe, sub, prefix=defs, jobs=5)
     ref = dict(zip(hl, outs64))
-    nrep = sum(1 for l, o in zip(sub, o1) if ref[l] != o)
+    okr = lambda a, b: a.startswith('OK') and b.startswith('OK')       # crashes / hangs are reported by run_histories
+    nrep = sum(1 for l, o in zip(sub, o1) if okr(ref[l], o) and ref[l] != o)
     ctx.count('repeat_runs_compared', len(sub))
     if nrep:
-        l = next(l for l, o in zip(sub, o1) if ref[l] != o)
+        l = next(l for l, o in zip(sub, o1) if okr(ref[l], o) and ref[l] != o)
         ctx.violation('history.repeat-run-differs', 'the same history gives different results in two runs: %s' % l,
                       replay=dict(kind='H', defs=defs, line=l))
     # ASan/UBSan on the short histories: stale scratch usually means dangling pointers
@@ -828,10 +842,13 @@ def run(ctx):
         if out.startswith('SKIP'):
             ctx.count('offset_skipped_ub')
             continue
+        if out == NOTRUN:
+            ctx.count('offset_cases_not_run_after_a_hang_or_crash')
+            continue
         res = parse_off(out) if out.startswith('OK') else None
         if res is None:
-            ctx.violation('offset.crash' if out == 'CRASH' else 'offset.exception', 'offset case failed: %s' % out[:300],
-                          replay=dict(kind='OFF', line=line, out=out[:500]))
+            ctx.violation('offset.crash' if out == 'CRASH' else ('offset.hang' if out == 'HANG' else 'offset.exception'),
+                          'offset case failed: the harness answered %s' % out[:300], replay=dict(kind='OFF', line=line, out=out[:500]))
             continue
         for key, what in classify_off(c, res):
             nfail[key] = nfail.get(key, 0) + 1
@@ -871,10 +888,13 @@ def run(ctx):
     outs, crashes = run_sharded(exe, rcl)
     nb = 0
     for l, o in zip(rcl, outs):
+        if o == NOTRUN:
+            ctx.count('rect_cases_not_run_after_a_hang_or_crash')
+            continue
         if not o.startswith('OK'):
             nb += 1
             if nb == 1:
-                ctx.violation('rect.reuse-differs' if o.startswith('DIFF') else 'rect.crash',
+                ctx.violation('rect.reuse-differs' if o.startswith('DIFF') else ('rect.hang' if o == 'HANG' else 'rect.crash'),
                               'RectClip%s64 object reuse / concatenation differs from fresh objects: %s' % ('Lines' if l.split()[1] == '1' else '', o[:300]),
                               replay=dict(kind='RC', line=l, out=o[:1500]))
     ctx.count('evaluations', len(rcl))
@@ -910,9 +930,9 @@ def decide_case(ctx, exe, case, origin=''):
     kind = case['kind']
     if kind in ('H', 'TR'):
         defs = case.get('defs') or defs_line()
-        p = vf.run_lines(exe, [defs, case['line']], timeout=120)
+        p = vf.run_lines(exe, [defs, case['line']], timeout=30)
         outs = p.stdout.split('\n')
-        out = outs[1] if len(outs) > 1 and outs[1] else 'CRASH'
+        out = outs[1] if len(outs) > 1 and outs[1] else ('HANG' if getattr(p, 'timed_out', False) else 'CRASH')
         ctx.count('evaluations')
         if kind == 'H' and not out.startswith('OK'):
             history_violation(ctx, 'H', case['line'], out, defs, origin)
